@@ -2,8 +2,10 @@
 // every statement that locks a mutex field named "mu" it inserts a simulation
 // yield point, so that the simulator can also switch goroutines at lock
 // granularity (for instance in a gap that a change opened between two
-// critical sections). The rewritten copy is only ever compiled into the
-// simulator; it is removed right after the build.
+// critical sections). With -badger it patches a scratch copy of the
+// dgraph-io/badger module instead (see patchBadger). The rewritten copies are
+// only ever compiled into the simulator; they are removed right after the
+// build.
 package main
 
 import (
@@ -57,7 +59,38 @@ func rewriteList(fset *token.FileSet, file string, list []ast.Stmt, n *int) []as
 	return out
 }
 
+// patchBadger adds a yield point to a scratch copy of dgraph-io/badger:
+// DB.Update calls the hook after the user's function has returned (its
+// deferred calls have run) and before the transaction is committed.
+func patchBadger(dir string) {
+	path := filepath.Join(dir, "txn.go")
+	src, err := os.ReadFile(path)
+	if err != nil {
+		fmt.Fprintln(os.Stderr, "autoyield:", err)
+		os.Exit(1)
+	}
+	old := "\tif err := fn(txn); err != nil {\n\t\treturn err\n\t}\n\n\treturn txn.Commit()\n}"
+	if strings.Count(string(src), old) != 1 {
+		fmt.Fprintln(os.Stderr, "autoyield: DB.Update of badger does not have the expected shape")
+		os.Exit(1)
+	}
+	patched := strings.Replace(string(src), old, "\tif err := fn(txn); err != nil {\n\t\treturn err\n\t}\n\tif h := VerifHook; h != nil {\n\t\th(\"badger.commit\", \"\")\n\t}\n\n\treturn txn.Commit()\n}", 1)
+	hook := "package badger\n\n// VerifHook, when set, is called by DB.Update between the user's function and\n// the commit (deterministic simulator only; this file exists only in the\n// scratch copy the simulator is built from).\nvar VerifHook func(point, arg string)\n"
+	if err := os.WriteFile(path, []byte(patched), 0o644); err == nil {
+		err = os.WriteFile(filepath.Join(dir, "verif_hook.go"), []byte(hook), 0o644)
+	}
+	if err != nil {
+		fmt.Fprintln(os.Stderr, "autoyield:", err)
+		os.Exit(1)
+	}
+	fmt.Println("autoyield: badger DB.Update yields before commit")
+}
+
 func main() {
+	if len(os.Args) == 3 && os.Args[1] == "-badger" {
+		patchBadger(os.Args[2])
+		return
+	}
 	dir := os.Args[1]
 	matches, _ := filepath.Glob(filepath.Join(dir, "*.go"))
 	total := 0
